@@ -41,7 +41,7 @@ ASSUMPTIONS = [
 ]
 BOUNDS = {"quick": {"depth_default": 4, "depth_dev": 3}, "thorough": {"depth_default": 5, "depth_dev": 4}}
 
-EVENTS = ("C0", "C1", "C2", "C6", "P1", "P1e", "P2", "P3", "Uverb", "Uuri", "Rprefix")
+EVENTS = ("C0", "C1", "C2", "C6", "P1", "P1e", "P2", "P3", "B2", "Minfo", "Uverb", "Uuri", "Rprefix")
 VARIANTS = ("rsa", "aes_rand", "aes_rand+rsa", "aes+hmac", "aes-noverify", "rsa/first-packet-only")
 
 GET_PROGS = {
@@ -316,6 +316,36 @@ class Session:
             # ground truth for the client's own callback: what the harness asked it to send
         elif ev in ("P2", "P3"):
             self.ref_callback(int(ev[1]))
+        elif ev == "B2":
+            # a batch: two callback messages (1 and 2 packets) are encoded with the library's own post transform
+            # first (no initial request given) and put on the wire afterwards
+            from dissect.cobaltstrike import c2
+
+            prepared = []
+            for npk in (1, 2):
+                pkts, stream = [], b""
+                for i in range(npk):
+                    self.counter += 1
+                    data = bytes(lcg((5, 20, 33)[(i + npk) % 3], self.seed + self.counter))
+                    plain = struct.pack(">III", self.counter, len(data), 0) + data
+                    ct, sig = RA.encrypt_packet(plain, self.keys[0], self.keys[1])
+                    stream += struct.pack(">I", len(ct) + 16) + ct + sig
+                    pkts.append(("callback", self.counter, 0, data))
+                real = random.getrandbits
+                random.getrandbits = lambda k: 0x1357_9BDF
+                try:
+                    req = self.client.c2http.transform_submit.transform(c2.ClientC2Data(id=str(self.client.beacon_id).encode(), output=stream))
+                finally:
+                    random.getrandbits = real
+                prepared.append((req, pkts))
+            for req, pkts in prepared:
+                raw = RH.serialize_request(self.verb_post, self.submit_uri + req.uri, list(req.params.items()), [(b"Host", b"h.example")] + list(req.headers.items()), req.body)
+                self.wire.append((raw, pkts, "library-encoded-batch"))
+        elif ev == "Minfo":
+            # the beacon's self-description changes during the session (longer, then the next check-in carries it)
+            if not hasattr(self, "base_info"):
+                self.base_info = bytes(self.client.metadata.info)
+            self.client.metadata.info = self.base_info + b"\tC:\\Windows\\System32\\RuntimeBroker.exe"[: 10 + 5 * (len(self.wire) % 4)]
         elif ev == "Uverb":
             raw = RH.serialize_request(b"DELETE", self.get_uris[0], [], [(b"Host", b"h")], b"")
             self.wire.append((raw, "REJECT", "unrelated"))
@@ -429,9 +459,19 @@ def chunk_hist(chunk, acc):
     depth = BOUNDS[acc.tier]["depth_default" if chunk["config"] == "default" else "depth_dev"]
     prefix = (chunk["first"],) + ((chunk["second"],) if chunk["second"] else ())
     rests = [()] if chunk["second"] is None else list(sequences(EVENTS, depth - 2))
+    # the two events added last are explored where they can matter: the library-encoded batch (B2) with the default
+    # and every callback-side configuration, the changed self-description (Minfo) with the default and every
+    # check-in-side configuration; the default configuration explores everything
+    cname = chunk["config"]
+    allow_b2 = cname == "default" or cname.startswith(("post:", "combo:post", "other:verbs"))
+    allow_minfo = cname == "default" or cname.startswith(("get:", "combo:uri-append", "other:host"))
     for rest in rests:
         hist = prefix + rest
-        nuris = len(dict.fromkeys(kw.get("domains", b"a,/ptj,b,/load").split(b",")[1::2]))
+        if ("B2" in hist and not allow_b2) or ("Minfo" in hist and not allow_minfo):
+            continue
+        # (the URI choice only matters for the check-in side: one choice suffices for histories with the new events
+        # outside the default configuration)
+        nuris = 1 if cname != "default" and ("B2" in hist or "Minfo" in hist) else len(dict.fromkeys(kw.get("domains", b"a,/ptj,b,/load").split(b",")[1::2]))
         for uc in range(nuris):
             acc.states += 1
             acc.transitions += len(hist)
